@@ -8,6 +8,7 @@ real threads under ``vcheck.impl.scheduler`` and through the extracted model LTS
 schedules with a bounded number of pre-emptions, produced by stateless search on the real code.
 O: judged from the implementation's journal only."""
 import json
+import os
 import sys
 
 from .. import core
@@ -493,7 +494,65 @@ class C20(core.Check):
             self.count('opcode-level %s k<=%d%s (oracle only)' % ('/'.join(prog), bound,
                                                                  '' if n < cap else ' (capped)'), n)
         self.granularity(False)
-        return out + list(found.values()) + self.dead_worker_histories()
+        return out + list(found.values()) + self.dead_worker_histories() + self.autoreload_self_stop()
+
+    def autoreload_self_stop(self):
+        """the one stop that the worker issues itself: Autoreloader.run sees a changed file and calls bus.restart(),
+        which publishes 'stop' on the worker's own thread (Monitor.stop cannot cancel+join itself).  After that stop has
+        returned the callback must not be invoked again (at most the invocation in flight), no worker may stay alive,
+        and a later start() gives exactly one.  Real threads, oracle only."""
+        import tempfile
+        import threading
+        import time
+        from cherrypy.process import plugins, wspbus
+        out = []
+        fd, path = tempfile.mkstemp(prefix='c20ar')
+        os.close(fd)
+        bus = wspbus.Bus()
+        ar = plugins.Autoreloader(bus, frequency=0.02, match='$^')
+        ar.files.add(path)
+        calls = []
+        stops = []
+        inner = ar.callback
+
+        def counted():
+            calls.append(time.time())
+            return inner()
+        ar.callback = counted
+        real_stop = ar.stop
+
+        def stop():
+            real_stop()
+            stops.append((time.time(), len(calls)))
+        ar.stop = stop
+        bus.subscribe('stop', ar.stop)
+        try:
+            ar.start()
+            t0 = time.time()
+            while len(calls) < 2 and time.time() - t0 < 30:
+                time.sleep(0.01)
+            os.utime(path, (1, 1))                       # the watched file "changes"
+            while not stops and time.time() - t0 < 60:
+                time.sleep(0.01)
+            time.sleep(0.4)                              # 20 periods
+            after = len(calls) - (stops[0][1] if stops else 0)
+            live = [t for t in threading.enumerate() if isinstance(t, plugins.BackgroundTask) and t.is_alive()]
+            self.count('autoreload: the worker stops its own monitor through bus.restart()')
+            obs = {'stop_returned': bool(stops), 'callback_calls_after_stop': after, 'live_workers': len(live)}
+            if stops and (after > 1 or live):
+                out.append(core.Violation(
+                    'self-stop:worker-survives',
+                    'Autoreloader saw a changed file and called bus.restart(); after its stop() returned the callback was '
+                    'invoked %d more time(s) and %d worker(s) are still alive' % (after, len(live)),
+                    case={'sys': 'autoreload-self-stop'}, observed=obs))
+        finally:
+            for t in [t for t in threading.enumerate() if isinstance(t, plugins.BackgroundTask)]:
+                t.cancel()
+            try:
+                os.unlink(path)
+            except OSError:
+                pass
+        return out
 
     def dead_worker_histories(self):
         """the end of a worker's life: its callback raises, BackgroundTask.run re-raises and the thread ends while
